@@ -49,7 +49,7 @@ FIELDOF = {"Z": ("P", "z", 0), "T": ("P", "t", 1), "B": ("S", "b", 0), "K": ("S"
            "C": ("S", "c", 3), "W": ("S", "w", 4), "TL": ("S", "tl", 5)}
 S_FIELDS = [("b", "B"), ("k", "K"), ("l", "ZL"), ("c", "C"), ("w", "W"), ("tl", "TL")]
 P_FIELDS = [("z", "Z"), ("t", "T")]
-V_INNER = ["Z", "K", "B", "W", "C", "T", "ZL", "TL", "P"]
+V_INNER = ["Z", "K", "B", "W", "C", "T", "ZL", "TL", "P", "S"]      # S: a Kombination with narrow fields next to wide ones (padding) inside a Variable
 VL_INNER = ["Z", "K", "B", "W", "C", "T"]
 
 # ------------------------------------------------------------------ value pools
